@@ -176,6 +176,10 @@ async def drive(agen_factory, fc):
 
 
 # ------------------------------------------------------------------ variants
+def IDENT(x):
+    return x
+
+
 def variants(pkg_root, pkg_names):
     """name -> (module to patch ws_connect in, factory(fc, cfg) -> async generator factory, payload decoder)"""
     out = {}
@@ -192,8 +196,11 @@ def variants(pkg_root, pkg_names):
             v = cfg.get("variables")
             if callable(v):
                 v = v(clients.dep_module("base_model").UNSET)
-            return lambda: c.execute_ws(query=QUERY, operation_name="Tick", variables=v, **kw)
-        out[f"bundled:{kind}/{tv}"] = (mod, mk, lambda x: x)
+            opn = cfg.get("operation_name", "Tick")
+            if opn == "<omitted>":
+                return lambda: c.execute_ws(query=QUERY, variables=v, **kw)
+            return lambda: c.execute_ws(query=QUERY, operation_name=opn, variables=v, **kw)
+        out[f"bundled:{kind}/{tv}"] = (mod, mk, IDENT)
     if pkg_root:
         for label, pkg, kind, tv in pkg_names:
             m, mods = genpkg.import_package(pkg_root, pkg)
@@ -220,6 +227,7 @@ def to_wire(v, unset):
 def replay_state(variant, st, cfg, loop):
     """Replay one model state (frame sequence) against one implementation variant.  Returns list of problems."""
     mod, mk, decode = variant
+    variant_is_bundled = decode is IDENT   # generated methods always pass the operation name
     fc = FakeConnect(st["hist"])
     old = mod.ws_connect
     mod.ws_connect = fc
@@ -270,9 +278,11 @@ def replay_state(variant, st, cfg, loop):
                 probs.append(("init_frame", f"{d!r} expected {want_init!r}"))
         elif k == "subscribe":
             p = d.get("payload") or {}
+            want_opname = cfg.get("operation_name", "Tick") if variant_is_bundled else "Tick"
+            want_opname = None if want_opname == "<omitted>" else want_opname
             if not isinstance(d.get("id"), str) or not d.get("id"):
                 probs.append(("subscribe_frame", f"id {d.get('id')!r}"))
-            if " ".join((p.get("query") or "").split()) != " ".join(QUERY.split()) or p.get("operationName") != "Tick":
+            if " ".join((p.get("query") or "").split()) != " ".join(QUERY.split()) or p.get("operationName") != want_opname:
                 probs.append(("subscribe_frame", f"query/operationName {p.get('query')!r} {p.get('operationName')!r}"))
             wv = cfg.get("wire_variables")
             if (p.get("variables") or {}) != (wv or {}):
@@ -291,6 +301,8 @@ def replay_state(variant, st, cfg, loop):
 
 CONFIGS = [
     ("default", {}),
+    ("operation_name_none", {"operation_name": None}),
+    ("operation_name_omitted", {"operation_name": "<omitted>"}),
     ("init_payload+headers+origin", {"init_payload": {"token": "t0k"}, "ws_headers": {"A": "1", "B": "2"}, "ws_origin": "http://origin.example",
                                      "call_kwargs": {"extra_headers": {"B": "3", "C": "4"}}}),
 ]
